@@ -361,10 +361,24 @@ def check_mandatory(F, R, adt, ws, mandatory):
             continue
         b = list(bodies.values())[0]
         entries = arm_entry_targets(b, leaf_adt, var)
+        stops = {w.site.bb for w in sites if w.body is b}
+        if not entries:
+            # the arm's body was extracted into a helper method: if every path through the helper performs one of the
+            # writes, each call of the helper counts as the write in its caller
+            all_paths = not b.entry_reaches_return(stop=[w.site for w in sites if w.body is b])
+            callers = []
+            for cbody in F.crate_bodies():
+                for cs, ct in cbody.calls():
+                    if F.callee_body(ct, cbody.crate) is b:
+                        callers.append((cbody, cs))
+            lifted = [(cbody, cs) for cbody, cs in callers if arm_entry_targets(cbody, leaf_adt, var)]
+            if all_paths and len({cb.key for cb, _ in lifted}) == 1:
+                b = lifted[0][0]
+                entries = arm_entry_targets(b, leaf_adt, var)
+                stops = {cs.bb for _, cs in lifted}
         if not entries:
             R.unverifiable(inst, f"no switch edge establishing {leaf_adt}::{var} in {b.short}")
             continue
-        stops = {w.site.bb for w in sites if w.body is b}
         bad = None
         for sw, tg in entries:
             seen, work = set(), [tg]
